@@ -175,7 +175,7 @@ def inproc(work, exe, mode, paths, label):
             resource.setrlimit(resource.RLIMIT_STACK, (8 << 20, 8 << 20))
             resource.setrlimit(resource.RLIMIT_CORE, (0, 0))
         try:
-            r = subprocess.run([str(exe), mode, str(lst), str(outp)], capture_output=True, timeout=1500, preexec_fn=limits,
+            r = subprocess.run([str(exe), mode, str(lst), str(outp)], capture_output=True, timeout=3600, preexec_fn=limits,
                                env=dict(os.environ, **ASAN_ENV))
             err = r.stderr[-3000:].decode("latin1")
         except subprocess.TimeoutExpired:
